@@ -37,7 +37,10 @@ class C15(Prop):
             "1..#checks+1 (capped at 80 per case), each followed by a normal scan with the same scanner.  The model "
             "(Model/Scanner.v with Model/EvalCost.v) must predict error kind, returned rules, delivered events and the "
             "number of checks performed, for each point.  One evaluation = one interruption point; non-trivial: the "
-            "interruption really happens (an error is returned); distinct by (rule set, input, configuration, point).")
+            "interruption really happens (an error is returned); distinct by (rule set, input, configuration, point).  "
+            "Two families are outside the condition model and are checked on the implementation's own outputs only "
+            "(error kind, prefix of the complete run, following scan, fire-once agreement): rule files of the C07 "
+            "dialect (`rich`) and loops over module arrays / dictionaries on real PE / ELF / Mach-O files (`modloop`).")
     TRUSTED = ["Coq 8.16.1 kernel + vm_compute", "harness/src/scan.rs, harness/src/bin/c15.rs", "hook verif_timeout "
                "(the j-th check_timeout call fires; calls are counted)", "vlib/ruleset.py + vlib/cond.py",
                "number of Aho-Corasick hits computed by Python for the <= 4-byte strings of the pool"]
@@ -104,10 +107,44 @@ class C15(Prop):
         return {"kind": "rich", "c07": c, "mem": rng.choice(c["inputs"]), "full": rng.chance(1, 3), "nm": rng.chance(1, 4),
                 "cb": rng.chance(1, 2), "ev_nomatch": rng.chance(1, 2)}
 
+    MODLOOP_ASSETS = {"pe": "boreal/tests/assets/libyara/data/mtxex.dll", "elf": "boreal/tests/assets/elf/smallest",
+                      "macho": "boreal/tests/assets/libyara/data/tiny-macho"}
+
+    def gen_modloop(self, rng):
+        """Loops over module arrays and dictionaries (`for .. in pe.sections`, `for k, v in pe.version_info`, ...)
+        on a real executable: these iterators are outside the condition model, so, as for the rich rule files, the
+        prefix property is checked on the implementation's own outputs at every interruption point — a timeout
+        that fires inside such a body must end the scan at once, before and after the string scan."""
+        mod = rng.choice(["pe", "pe", "pe", "elf", "macho"])
+        loops = {
+            "pe": ["for any s in pe.sections : (s.raw_data_size > 100000)", "for all s in pe.sections : (s.virtual_address > 0)",
+                   "for 2 s in pe.sections : (s.raw_data_size > 0 and #_a >= 0)", "for any s in pe.sections : ($_a and s.raw_data_size > 0)",
+                   "for any k, v in pe.version_info : (k == \"zz\" or v contains \"zzz\")",
+                   "for all k, v in pe.version_info : ($_a or k != \"\")",
+                   "for any i in (0..pe.number_of_sections - 1) : (pe.sections[i].raw_data_offset == 1)",
+                   "for any e in pe.import_details : (for any f in e.functions : (f.name == \"zz\" and #_a > 100))"],
+            "elf": ["for any s in elf.segments : (s.type == 12345)", "for all s in elf.segments : (s.offset >= 0 and #_a >= 0)",
+                    "for any s in elf.sections : ($_a or s.size > 1000000)"],
+            "macho": ["for any s in macho.segments : (s.nsects > 100)", "for all s in macho.segments : (s.vmsize >= 0 and #_a >= 0)",
+                      "for any seg in macho.segments : (for any sec in seg.sections : (sec.size > 100000000 or $_a))"],
+        }[mod]
+        nr = rng.range(1, 3)
+        src = 'import "%s"\n' % mod
+        for i in range(nr):
+            c = rng.choice(loops)
+            if rng.chance(1, 3):
+                c = "(%s) or %s" % (c, rng.choice(["false", "$_a", "filesize == 1"]))
+            src += 'rule m%d { strings: $_a = "%s" condition: %s }\n' % (i, rng.choice(["MZ", "text", "zqzq", "\\x7fELF"]), c)
+        return {"kind": "modloop", "src": src, "asset": self.MODLOOP_ASSETS[mod], "full": rng.chance(1, 3), "nm": rng.chance(1, 4),
+                "cb": rng.chance(1, 2), "ev_nomatch": rng.chance(1, 2)}
+
     def term_rich(self, ctx, case, out):
         if not isinstance(out, dict) or "full" not in out:
             if isinstance(out, dict) and "compile_error" in out:
-                ctx.count("rich: compile_error")
+                ctx.count("%s: compile_error" % case["kind"])
+                if case["kind"] == "modloop":
+                    ctx.notes.append("modloop rule file does not compile: %s" % str(out["compile_error"])[:300])
+                    return (False, False, 0)
                 return (True, True, 0)
             return (False, False, 0)
         full = out["full"]
@@ -119,7 +156,7 @@ class C15(Prop):
         if full.get("error"):
             ctx.notes.append("rich: the uninterrupted scan fails: %s" % full.get("error"))
             return (False, False, 0)
-        ctx.count("rich: interruption points", len(out["runs"]))
+        ctx.count("%s: interruption points" % case["kind"], len(out["runs"]))
         for r in out["runs"]:
             o = r["out"]
             oe = [evkey(e) for e in o.get("events", [])]
@@ -140,7 +177,7 @@ class C15(Prop):
                 if o.get("error") == "Timeout":
                     if oe != fe[:len(oe)] or orr != fr[:len(orr)]:
                         bad = "timeout at check %d: what was reported is not a prefix of the complete scan" % r["at"]
-                    ctx.count("rich: timeout interrupted")
+                    ctx.count("%s: timeout interrupted" % case["kind"])
                 elif r["at"] <= (full.get("checks") or 0):
                     bad = "timeout at check %d of %s did not interrupt the scan" % (r["at"], full.get("checks"))
                 elif o.get("error") or oe != fe or orr != fr:
@@ -201,6 +238,8 @@ class C15(Prop):
                 "ev_import": False, "ev_limit": False, "limit": 1000, "frag": None}
 
     def gen_case(self, rng):
+        if rng.chance(1, 12):
+            return self.gen_modloop(rng)
         if rng.chance(1, 10):
             return self.gen_list_pending(rng)
         if rng.chance(1, 8):
@@ -247,6 +286,12 @@ class C15(Prop):
         return out
 
     def harness_case(self, case):
+        if case.get("kind") == "modloop":
+            ev = 1 | (2 if case["ev_nomatch"] else 0)
+            mem = open(os.path.join(os.environ.get("VERIF_REPO", "/repo"), case["asset"]), "rb").read()
+            return {"rules": [{"ns": None, "src": case["src"]}], "api": "callback" if case["cb"] else "list",
+                    "params": {"compute_full_matches": case["full"], "include_not_matched": case["nm"], "events": ev},
+                    "input": {"mem": mem.hex()}, "max_points": 120}
         if case.get("kind") == "rich":
             from . import c07
             ev = 1 | (2 if case["ev_nomatch"] else 0)
@@ -274,7 +319,7 @@ class C15(Prop):
         return outs
 
     def term(self, ctx, case, out):
-        if case.get("kind") == "rich":
+        if case.get("kind") in ("rich", "modloop"):
             return self.term_rich(ctx, case, out)
         rs = case["rs"]
         if not isinstance(out, dict) or "full" not in out:
@@ -332,6 +377,9 @@ class C15(Prop):
         return None
 
     def sample(self, case, out):
+        if case.get("kind") == "modloop":
+            return {"rules": case["src"], "input": case["asset"], "config": {k: case.get(k) for k in ("full", "nm", "cb", "ev_nomatch")},
+                    "points": len((out or {}).get("runs", []))}
         if case.get("kind") == "rich":
             from . import c07
             return {"rules": [(x["ns"], x["src"]) for x in c07.harness_rules(case["c07"])], "mem": case["mem"],
